@@ -54,7 +54,7 @@ def main():
         dst = os.path.join("/verif/seeded", sid)
         os.makedirs(dst, exist_ok=True)
         # patch relative to current HEAD
-        d = sh("git -C %s diff" % wt).stdout
+        d = sh("git -C %s diff HEAD" % wt).stdout
         with open(os.path.join(dst, "patch.diff"), "w") as f:
             f.write(d if out.get("patch_applies") else open(os.path.join(src, "patch.diff")).read())
         shutil.copy(os.path.join(src, demo), os.path.join(dst, demo))
